@@ -485,11 +485,23 @@ static void body_history_rounds(unsigned cfg, int d1, int d2, int guard_state, i
   VASSERT(C01, inv_config(r) && inv_quiescent(r), "the replica is well-formed after the replay");
   for (int c = 0; c < VM_NC; ++c) VASSERT(C09, r._core.registry.compoActive[c] == after.active[c], "replaying a multi-round history reproduces the same active configuration");
 }
-static void body_history_enter() {
+static void body_history_enter(int redirect_to = 0) {
   Instance a VM_CTOR;
   for (int s = 0; s < VM_NS; ++s) { g_entered[s] = false; g_enter_count[s] = 0; g_exit_count[s] = 0; }
   g_guards_forbidden = false; g_round_cancelled = false;
+  if (redirect_to > 0) {
+    // the entry guard of the state the default activation would enter first redirects the activation (a request issued during
+    // the initial activation, without a veto): the activation then has a non-empty history, which replayEnter() must reproduce
+    int s0 = 0; for (int k = 0; k < VM_NS && VM_SPEC[s0].kind != K_LEAF; ++k) { for (int c = s0 + 1; c < VM_NS; ++c) if (VM_SPEC[c].parent == s0 && VM_SPEC[c].prong == 0) { s0 = c; break; } }
+    g_sub_guard = s0; g_sub_is_entry = true; g_sub_dest = redirect_to; g_sub_nocancel = true; g_sub_done = false;
+  }
   a.enter();
+  if (redirect_to > 0) {
+    VREACH("activation redirected by an entry guard");
+    VASSERT(C09, a.previousTransitions().count() <= 1, "the history of the activation holds at most the one request that was issued");     // (a request that asks for what the default activation does anyway changes nothing and is, like in update(), not recorded: the replica check below decides)
+    if (g_sub_done) VASSERT(C09/C02, spec_active(a, redirect_to), "the redirected activation ends in the requested state");
+    g_sub_guard = -1; g_sub_nocancel = false;
+  }
   const auto& hist = a.previousTransitions();
   Snapshot after; snap(a, after);
   Instance r VM_CTOR;
